@@ -2,7 +2,7 @@
 From Coq Require Import String List PArith.
 Import ListNotations.
 Require Import Verif.Chroot.Path Verif.Chroot.PathProps Verif.Chroot.Import Verif.Chroot.Confine Verif.Gen.ChrootOps.
-Require Import Verif.Chroot.Bytes Verif.Chroot.BytesProps Verif.Chroot.BytesConfine Verif.Chroot.ImportBytes Verif.Gen.ImportOrder.
+Require Import Verif.Chroot.Bytes Verif.Chroot.BytesProps Verif.Chroot.NestedProps Verif.Chroot.BytesConfine Verif.Chroot.ImportBytes Verif.Chroot.Configure Verif.Chroot.ConfigureProps Verif.Gen.ImportOrder.
 
 (* openAllowed = "the cleaned root is a prefix", for every root and path *)
 Theorem C18_allowed_is_prefix : forall root p, allowed root p = true <-> exists s, p = clean_abs root ++ s.
@@ -205,3 +205,104 @@ Theorem C18_bytes_import_read_confined : forall t od g cwd root0 m text p, go_is
   go_clean p = p /\ b_under (go_clean (new_chroot cwd root0)) p.
 Proof. exact b_import_read_confined. Qed.
 Print Assumptions C18_bytes_import_read_confined.
+
+(* ================= letter case: the range check compares BYTES ================= *)
+(* obligations against the current source (Gen/ChrootOps.v): the statements of NewChrootFs / join / openAllowed / wrapCall
+   are the ones Chroot/Bytes.v transliterates; openAllowed calls nothing but filepath.Rel, strings.Split, string(), errors.New
+   and hands fs.root and its parameter to Rel unchanged *)
+Theorem C18_path_functions_as_modelled : path_shapes = expected_shapes /\ chroot_consts = ["windows=""windows"""%string].
+Proof. exact path_functions_as_modelled. Qed.
+Print Assumptions C18_path_functions_as_modelled.
+
+Theorem C18_open_allowed_no_folding :
+  open_allowed_calls = ["errors.New"; "filepath.Rel"; "string"; "strings.Split"]%string /\
+  open_allowed_rel_args = ["recv.root"; "param"]%string.
+Proof. exact open_allowed_no_folding. Qed.
+Print Assumptions C18_open_allowed_no_folding.
+
+(* openAllowed as written, on a cleaned absolute path: true EXACTLY for the cleaned root and the strings that continue
+   it with "/" - byte for byte (all absolute root strings, all cleaned paths) *)
+Theorem C18_allowed_iff_bytewise_under : forall root P, go_is_abs root = true -> names P ->
+  (open_allowed root (render P) = true <-> b_under (go_clean root) (render P)).
+Proof. exact open_allowed_iff_under. Qed.
+Print Assumptions C18_allowed_iff_bytewise_under.
+
+(* two cleaned paths that differ in the letter case of one byte: within the root's own prefix at most one is let
+   through; behind it both get one verdict; they never reach the inner filesystem as the same file *)
+Theorem C18_allowed_is_case_sensitive : forall root P Q i,
+  go_is_abs root = true -> names P -> names Q -> case_variant_at i (render P) (render Q) ->
+  (i < length (go_clean root) -> open_allowed root (render P) = true -> open_allowed root (render Q) = false) /\
+  (length (go_clean root) <= i -> open_allowed root (render P) = open_allowed root (render Q)) /\
+  (forall cwd a a', b_join cwd root a = render P -> b_join cwd root a' = render Q ->
+     b_wrap_call cwd root a <> b_wrap_call cwd root a' \/ (b_wrap_call cwd root a = None /\ b_wrap_call cwd root a' = None)).
+Proof. exact allowed_is_case_sensitive. Qed.
+Print Assumptions C18_allowed_is_case_sensitive.
+
+(* ================= NESTED wrappers: NewChrootFs(NewChrootFs(inner, lower), upper) ================= *)
+(* obligation against the current source: NewChrootFs stores the filesystem it is given and passes it to
+   cleanPathForMemFs; no type test in chroot_fs.go asks for *ChrootFs *)
+Theorem C18_constructor_opaque :
+  constructor_fs_uses = ["arg:cleanPathForMemFs"; "field:fs"]%string /\
+  chroot_type_tests = ["Create:afero.File"; "Open:afero.File"; "OpenFile:afero.File"; "Stat:os.FileInfo";
+                       "cleanPathForMemFs:*afero.MemMapFs"]%string.
+Proof. exact constructor_opaque. Qed.
+Print Assumptions C18_constructor_opaque.
+
+Theorem C18_nested_lower_never_refuses : forall o cwd lower0 upper0 args, go_is_abs cwd = true -> In o ops ->
+  b_nested_op cwd lower0 upper0 o args
+  = option_map (map (b_join cwd (new_chroot cwd lower0))) (b_chroot_op cwd upper0 o args).
+Proof. exact b_nested_spec. Qed.
+Print Assumptions C18_nested_lower_never_refuses.
+
+Theorem C18_nested_confined : forall o cwd lower0 upper0 args ps, go_is_abs cwd = true -> In o ops ->
+  b_nested_op cwd lower0 upper0 o args = Some ps ->
+  Forall (fun p => go_clean p = p /\ b_under (go_clean (new_chroot cwd lower0)) p /\
+                   b_under (b_join cwd (new_chroot cwd lower0) (go_clean (new_chroot cwd upper0))) p) ps.
+Proof. exact b_nested_confined. Qed.
+Print Assumptions C18_nested_confined.
+
+Theorem C18_nested_no_dotdot_never_refused : forall o cwd lower0 upper0 args, go_is_abs cwd = true -> In o ops ->
+  length args = length (op_args o) -> Forall no_dotdot args ->
+  b_nested_op cwd lower0 upper0 o args
+  = Some (map (b_join cwd (new_chroot cwd lower0)) (map (b_join cwd (new_chroot cwd upper0)) args)).
+Proof. exact b_nested_no_dotdot_never_refused. Qed.
+Print Assumptions C18_nested_no_dotdot_never_refused.
+
+Theorem C18_nested_import_read_confined : forall g cwd lower0 upper0 name p, go_is_abs cwd = true ->
+  b_nested_read g ops cwd lower0 upper0 name = ToFs (Some p) ->
+  go_clean p = p /\ b_under (go_clean (new_chroot cwd lower0)) p /\
+  b_under (b_join cwd (new_chroot cwd lower0) (go_clean (new_chroot cwd upper0))) p.
+Proof. exact b_nested_read_confined. Qed.
+Print Assumptions C18_nested_import_read_confined.
+
+(* ================= the loader WITHOUT a root argument (pkg/loader ConfigureProject, Chroot/Configure.v) ================= *)
+(* filepath.Dir of a cleaned absolute path drops its last name *)
+Theorem C18_dir_of_clean_path : forall P, names P -> go_dir (render P) = render (removelast P).
+Proof. exact go_dir_render. Qed.
+Print Assumptions C18_dir_of_clean_path.
+
+(* the upward search for a root marker terminates within its fuel and returns a directory above where it started *)
+Theorem C18_find_root_above : forall ex marker fuel P, names P -> length P < fuel ->
+  find_root fuel ex marker (render P) <> None /\
+  forall r, find_root fuel ex marker (render P) = Some (Some r) -> exists j, r = render (firstn j P).
+Proof. exact find_root_spec. Qed.
+Print Assumptions C18_find_root_above.
+
+Theorem C18_configure_never_out_of_fuel : forall ex cwd root module, go_is_abs cwd = true -> configure ex cwd root module <> CfgFuel.
+Proof. exact configure_never_out_of_fuel. Qed.
+Print Assumptions C18_configure_never_out_of_fuel.
+
+(* a root found through a marker is cleaned, absolute, and the module lies under it *)
+Theorem C18_found_root_contains_module : forall ex cwd module r m,
+  go_is_abs cwd = true -> configure ex cwd [] module = Cfg r m true ->
+  go_clean r = r /\ go_is_abs r = true /\ b_under r (go_abs cwd module).
+Proof. exact configure_found_root_contains_module. Qed.
+Print Assumptions C18_found_root_contains_module.
+
+(* whichever branch chose the root: everything the reader opens lies under it *)
+Theorem C18_configured_read_confined : forall t od g ex cwd root module otext r m found p, go_is_abs cwd = true ->
+  configure ex cwd root module = Cfg r m found ->
+  cfg_read t od g ops ex cwd root module otext = Some (ToFs (Some p)) ->
+  go_clean p = p /\ b_under (go_clean (new_chroot cwd r)) p.
+Proof. exact cfg_read_confined. Qed.
+Print Assumptions C18_configured_read_confined.
